@@ -21,10 +21,10 @@ from asyncfix.message import FIXContainer
 from asyncfix.protocol.schema import FIXSchema
 
 from checks.dictmodel import Dict
-from vfx.run import Cell
+from vfx.run import Cell, REPO
 
 warnings.simplefilter("ignore")
-PATHS = {"FIX44": "/repo/tests/FIX44.xml", "TT": "/repo/tests/TT-FIX44.xml"}
+PATHS = {"FIX44": REPO + "/tests/FIX44.xml", "TT": REPO + "/tests/TT-FIX44.xml"}
 _CACHE = {}
 
 
